@@ -65,6 +65,7 @@ class World:
         self.cur = None  # current task id (set by controlled executors)
         self.log: list[Ev] = []
         self.overlay_mode = False
+        self.hash_sets = False
         self.overlays = {}  # task -> {store_label: {key: bytes-like}}
         self.stores = {}
         self.faults = []  # list of dict(store, op, key_re, outcomes(list[bool] ok?), count)
@@ -173,6 +174,8 @@ class TStore(MemoryStore):
         w = self.world
         w.fault_check(self.label, "set", key)
         w.record("set", self.label, key, len(value))
+        if w.hash_sets:
+            w.record("sethash", self.label, key, hash(value.to_bytes()))
         ov = self._ov()
         if ov is not None:
             ov[key] = value
